@@ -127,7 +127,12 @@ fn check_one(g: &G, dfs: bool, threads: usize, forest: bool, keep_going: bool) {
     let tag = format!("[{} threads={} forest={} model={:?}]", if dfs { "dfs" } else { "bfs" }, threads, forest, g);
     let visited: Arc<Mutex<Vec<Vec<(usize, Option<usize>)>>>> = Arc::new(Mutex::new(Vec::new()));
     let v2 = visited.clone();
-    let b = g.clone().checker().threads(threads).visitor(move |p: Path<usize, usize>| v2.lock().unwrap().push(p.into_vec()));
+    let big = g.edges.len() > 100;
+    let b = g.clone().checker().threads(threads).visitor(move |p: Path<usize, usize>| {
+        // large models: keep only the last step of each path (the full paths would need O(n^2) memory)
+        let v = p.into_vec();
+        v2.lock().unwrap().push(if big { v[v.len() - 1..].to_vec() } else { v })
+    });
     if dfs { analyse(g, b.spawn_dfs().join(), visited, tag, forest, keep_going) } else { analyse(g, b.spawn_bfs().join(), visited, tag, forest, keep_going) }
 }
 
@@ -171,7 +176,7 @@ fn analyse<C: Checker<G>>(g: &G, c: C, visited: Arc<Mutex<Vec<Vec<(usize, Option
         }
     }
     let vis = visited.lock().unwrap().clone();
-    for p in &vis { valid_path(p, "C01 visitor path"); }
+    if g.edges.len() <= 100 { for p in &vis { valid_path(p, "C01 visitor path"); } }
     if keep_going {
         // p3 = always(true) never gets a discovery: no early exit, the whole space is evaluated
         let mut seen: Vec<usize> = vis.iter().map(|p| p[p.len() - 1].0).collect();
@@ -203,6 +208,28 @@ fn fixed_models() -> Vec<G> {
     v
 }
 
+// models larger than one block of work (1500 evaluations between two visits to the job market)
+fn big_models() -> Vec<G> {
+    let mut v = Vec::new();
+    // corridor 0 -> 1 -> ... -> 3999
+    let n = 4000;
+    let edges: Vec<Vec<Option<usize>>> = (0..n).map(|i| if i + 1 < n { vec![Some(i + 1)] } else { vec![] }).collect();
+    let at = |k: usize| (0..n).map(|i| i == k).collect::<Vec<bool>>();
+    v.push(G { inits: vec![0], edges, inside: vec![true; n],
+               props: vec![(0, (0..n).map(|i| i != 2500).collect()), (2, at(3999)), (1, at(3999)), (0, vec![true; n])] });
+    // fan 0 -> 1..=1700, i -> 2000 + i % 50 -> 2100 (joins), two initial states, a boundary
+    let n = 2101;
+    let mut edges: Vec<Vec<Option<usize>>> = vec![Vec::new(); n];
+    edges[0] = (1..=1700).map(Some).collect();
+    for i in 1..=1700 { edges[i] = vec![None, Some(2000 + i % 50), Some(i)]; }
+    for i in 2000..2050 { edges[i] = vec![Some(2100)]; }
+    edges[1800] = vec![Some(1801)];
+    let inside: Vec<bool> = (0..n).map(|i| i != 1801 && i != 777).collect();
+    v.push(G { inits: vec![0, 1800], edges, inside,
+               props: vec![(0, (0..n).map(|i| i != 2100).collect()), (2, (0..n).map(|i| i == 1600).collect()), (1, (0..n).map(|i| i == 2100).collect()), (0, vec![true; n])] });
+    v
+}
+
 #[test]
 fn verif_checker_oracle() {
     let mut models: Vec<(G, bool, bool)> = fixed_models().into_iter().map(|g| (g, true, true)).collect();
@@ -212,6 +239,7 @@ fn verif_checker_oracle() {
         models.push((random_graph(&mut r, keep), false, keep));
         models.push((random_forest(&mut r, keep), true, keep));
     }
+    for g in big_models() { models.push((g, false, true)); }
     for (g, forest, keep) in &models {
         for dfs in [false, true] {
             for threads in 1..=3 {
